@@ -76,6 +76,9 @@ def c10 : List String := Id.run do
         | none => true)
       let badNames := bad.map (fun i => match intrinsicFeatures[i]? with | some (n, fs) => s!"{n} needs {repr fs}" | none => s!"#{i} (unknown)")
       out := out ++ [s!"{repr r.reg} {repr r.ty} {repr r.method}: the dispatcher verifies {repr (verifiedForReg r.reg)} for this backend, but the method uses {badNames} / calls {repr (r.calls.filter (fun c => !subsetB (verifiedForReg c.1) (allowedFor r.reg)))} — a CPU with exactly the verified features executes an instruction it lacks"]
+  for r in exports do
+    if !subsetB r.features (allowedFor r.reg) then
+      out := out ++ [s!"export {r.xanyName} ({r.file}:{r.line}) belongs to backend {repr r.reg}, for which the dispatcher verifies {repr (verifiedForReg r.reg)}, but is compiled with target features {repr r.features}: on a CPU with exactly the verified features the routine may execute {repr (r.features.filter (fun f => !(allowedFor r.reg).contains f))} instructions"]
   for c in dispatchCandidates do
     for ty in elemTypes do
       for op in allKernels do
